@@ -5,6 +5,7 @@ import re
 
 from ..core import astutil as A
 from ..core import bashlex as B
+from ..core import match as M
 from ..core.model import dotted
 
 META = {
@@ -125,9 +126,9 @@ def run(ctx):
         got = A.try_literal(c.assigns.get(attr), default=None) if c.assigns.get(attr) is not None else None
         ctx.check("R1", c, got == val, f"default-mode:{cn}={got}", f"{cn}: default {attr.split('_')[0]} {val}", f"{cn}.{attr} is {got!r}; PMS default is {val}", node=c.node)
     db = P.func(MOD, "Dobin.parse_install_options")
-    ctx.check("R1", db, "'-m0755'" in A.unparse(db.node) and "root_gid" in A.unparse(db.node) and "root_uid" in A.unparse(db.node), "dobin-mode-owner", "dobin/dosbin: 0755 root:root")
-    ipd = [c for st in IW.node.body for c in A.calls(st) if A.unparse(c.func) == "install_parser.add_argument" and "'--mode'" in A.unparse(c)]
-    ctx.check("R1", IW, len(ipd) == 1 and "default=493" in A.unparse(ipd[0]), "install-default-mode", "`install` default mode 0755")
+    ctx.check("R1", db, M.has(db.node, "self.opts.insoptions = ['-m0755', f'-g{os_data.root_gid}', f'-o{os_data.root_uid}']\nreturn super().parse_install_options(...)"), "dobin-mode-owner", "dobin/dosbin: 0755 root:root")
+    ipd = [c for st in IW.node.body for c in A.calls(st) if M.pat("install_parser.add_argument(..., '--mode', ...)").matches(c)]
+    ctx.check("R1", IW, len(ipd) == 1 and M.pat("install_parser.add_argument(..., default=493)").matches(ipd[0]) is not None, "install-default-mode", "`install` default mode 0755")
     ctx.floor("R1", 45)
 
     # ---- R2 ownership before mode ----------------------------------------------------------------------------
@@ -137,7 +138,7 @@ def run(ctx):
     ctx.require(ch and cm, "_set_attributes: chown/chmod not found")
     ctx.check("R2", sa, all(a.lineno < b.lineno for a in ch for b in cm), "chown-before-chmod", "ownership is set before the mode (chown clears set-uid/set-gid bits)",
               "_set_attributes applies chmod BEFORE chown: chown(2) clears set-uid/set-gid bits, so a requested 04711 with -o/-g ends up 0711", node=cm[0])
-    ctx.check("R2", sa, "os.lchown" in [dotted(c.func) for c in ch] and "not os.path.islink(path)" in A.unparse(sa.node), "no-follow", "ownership does not follow symlinks; mode is not applied to symlinks")
+    ctx.check("R2", sa, all(dotted(c.func) == "os.lchown" for c in ch) and all(_under_if(c, "not os.path.islink(path)") for c in cm), "no-follow", "ownership does not follow symlinks; mode is not applied to symlinks")
     ctx.floor("R2", 2)
 
     # ---- R3 destination replacement ------------------------------------------------------------------------------
@@ -150,17 +151,25 @@ def run(ctx):
               f"_install removes the destination only under `{bad[0] if bad else ''}`: os.path.exists follows symlinks, so a dangling symlink at the destination stays and the copy is written through it (outside the requested entry)", node=ul[0])
     cp = [c for c in A.calls(ins.node) if dotted(c.func) == "shutil.copyfile"]
     ctx.check("R3", ins, len(cp) == 1 and any(k.arg == "follow_symlinks" and A.is_const(k.value, False) for k in cp[0].keywords), "copy-no-follow", "the copy does not follow symlinks")
-    ctx.check("R3", ins, ul[0].lineno < cp[0].lineno if cp else False, "remove-before-copy", "removal precedes the copy")
-    ctx.check("R3", ins, "self._is_install_allowed(source, sstat, dest)" in A.unparse(ins.node), "identical-rejected", "installing a file onto itself is rejected first")
+    # the (source, dest) pair of one request, named by role: loop variables over the prefixed targets
+    loop = M.one(ins.node, "for $src, $dst in self._prefix_targets($_):\n    ...")
+    E = dict(loop.env) if loop else {}
+    same_dest = bool(loop) and cp and M.pat("os.unlink($dst)").matches(ul[0], E) is not None and M.pat("shutil.copyfile($src, $dst, ...)").matches(cp[0], E) is not None
+    ctx.check("R3", ins, bool(same_dest) and ul[0].lineno < cp[0].lineno, "remove-before-copy", "removal precedes the copy")
+    allowed = M.one(loop.node, "try:\n    $st = os.stat($src)\nexcept OSError as $e:\n    raise IpcCommandError($_)\nself._is_install_allowed($src, $st, $dst)", E) if loop else None
+    gate = [c for c in A.calls(ins.node) if A.unparse(c.func) == "self._is_install_allowed"]
+    ctx.check("R3", ins, allowed is not None and len(gate) == 1 and A.stmt_of(gate[0]) in loop.node.body and gate[0].lineno < ul[0].lineno, "identical-rejected", "installing a file onto itself is rejected first")
     ctx.floor("R3", 4)
 
     # ---- R4 directory-of idiom -------------------------------------------------------------------------------------
     rd = P.func("pkgcore.ebuild.misc", "get_relative_dosym_target")
     n_idiom = 0
+    n_idiom_rd = 0
     for fn in [rd] + [m for c in P.all_classes() if c.module.name == MOD for m in c.methods.values()]:
         for n in A.walk(fn.node):
             if isinstance(n, ast.Subscript) and A.is_const(n.slice, 0) and isinstance(n.value, ast.Call) and A.call_attr(n.value) == "rsplit" and len(n.value.args) == 2 and A.unparse(n.value.args[0]) in ("os.path.sep", "'/'"):
                 n_idiom += 1
+                n_idiom_rd += fn is rd
                 subj = A.unparse(n.value.func.value)
                 st = A.stmt_of(n)
                 nm = A.unparse(st.targets[0]) if isinstance(st, ast.Assign) else None
@@ -169,37 +178,76 @@ def run(ctx):
                           f"`{A.unparse(n)}` is used as the directory of `{subj}` with no guard for names without a separator (then it IS the whole name): a link name given without the initial slash gets one '..' too many", node=n)
     ctx.check("R4", rd, n_idiom >= 1, f"idiom-sites:{n_idiom}", f"{n_idiom} `rsplit(sep, 1)[0]` directory idioms inspected")
     ret = A.returns(rd.node)[-1]
-    ctx.check("R4", rd, A.unparse(ret.value) == "os.path.relpath(source, os.path.join('/', os.path.dirname(target)))", "relative-target", "dosym -r: relpath(source, '/' + dirname(link))",
-              f"get_relative_dosym_target returns `{A.unparse(ret.value)[:80]}`", node=ret) if "rsplit" not in A.unparse(rd.node) else None
+    if not n_idiom_rd:
+        ctx.check("R4", rd, M.pat("os.path.relpath(source, os.path.join('/', os.path.dirname(target)))").matches(ret.value) is not None, "relative-target", "dosym -r: relpath(source, '/' + dirname(link))",
+                  f"get_relative_dosym_target returns `{A.unparse(ret.value)[:80]}`", node=ret)
     ds = P.func(MOD, "Dosym.run")
-    t = A.unparse(ds.node)
-    ctx.check("R4", ds, "args.source = get_relative_dosym_target(args.source, target)" in t, "relative-applied", "Dosym -r replaces the source by the relative target")
+    tgt = M.one(ds.node.body, "$t = args.target")
+    ctx.require(tgt is not None, "Dosym.run: read of the link name (args.target) not found")
+    T = dict(tgt.env)
+    ctx.check("R4", ds, M.has(ds.node.body, "$t = args.target\nif self.opts.relative:\n    args.source = get_relative_dosym_target(args.source, $t)\nsuper().run(args)", T), "relative-applied", "Dosym -r replaces the source by the relative target")
     ctx.floor("R4", 3)
 
     # ---- R5 rejections / EAPI gates ------------------------------------------------------------------------------------------
-    ctx.check("R5", ds, "raise IpcCommandError(f'missing filename target: {target!r}')" in t and "target.endswith(os.path.sep)" in t and "os.path.isdir(target) and (not os.path.islink(target))" in t, "dosym-missing-name", "dosym rejects a target that is a directory / ends in a slash")
-    ctx.check("R5", ds, "if not self.dosym_relative:\n" in t and "-r not permitted in EAPI" in t and "if not os.path.isabs(args.source)" in t, "dosym-r-gated", "dosym -r: only where the EAPI allows it, only with an absolute source")
+    ctx.check("R5", ds, M.has(ds.node.body, "$t = args.target\nif $t.endswith(os.path.sep) or (os.path.isdir($t) and (not os.path.islink($t))):\n    raise IpcCommandError($_)\nsuper().run(args)", T), "dosym-missing-name", "dosym rejects a target that is a directory / ends in a slash")
+    ctx.check("R5", ds, M.has(ds.node.body, "if self.opts.relative:\n    if not self.dosym_relative:\n        raise IpcCommandError($_)\n    if not os.path.isabs(args.source):\n        raise IpcCommandError($_)\n    args.source = get_relative_dosym_target(...)"), "dosym-r-gated", "dosym -r: only where the EAPI allows it, only with an absolute source")
     dsi = P.func(MOD, "Dosym.__init__")
-    ctx.check("R5", dsi, "self.dosym_relative = self.eapi.options.dosym_relative" in A.unparse(dsi.node), "dosym-r-option", "the gate reads EAPI option dosym_relative")
+    ctx.check("R5", dsi, M.has(dsi.node, "self.dosym_relative = self.eapi.options.dosym_relative"), "dosym-r-option", "the gate reads EAPI option dosym_relative")
+    SPLIT = "$files, $dirs = partition(targets, predicate=os.path.isdir)\n"
     dd = P.func(MOD, "Dodoc._install_targets")
-    t = A.unparse(dd.node)
-    ctx.check("R5", dd, "if self.opts.recursive and self.allow_recursive:" in t and "is a directory" in t and "raise IpcCommandError" in t, "dodoc-dir-needs-r", "dodoc: a directory needs -r and an EAPI that allows it")
+    ctx.check("R5", dd, M.has(dd.node.body, SPLIT + "$dirs = list($dirs)\nif $dirs:\n    if self.opts.recursive and self.allow_recursive:\n        self.install_from_dirs($dirs)\n    else:\n        raise IpcCommandError($_)") and _only_under(dd, "self.install_from_dirs", "self.opts.recursive and self.allow_recursive"),
+              "dodoc-dir-needs-r", "dodoc: a directory needs -r and an EAPI that allows it")
     ddi = P.func(MOD, "Dodoc.__init__")
-    ctx.check("R5", ddi, "self.allow_recursive = self.eapi.options.dodoc_allow_recursive" in A.unparse(ddi.node), "dodoc-r-option", "the gate reads EAPI option dodoc_allow_recursive")
+    ctx.check("R5", ddi, M.has(ddi.node, "self.allow_recursive = self.eapi.options.dodoc_allow_recursive"), "dodoc-r-option", "the gate reads EAPI option dodoc_allow_recursive")
     di = P.func(MOD, "Doins._install_targets")
-    t = A.unparse(di.node)
-    ctx.check("R5", di, "if self.opts.recursive:\n" in t and "self.install_from_dirs(dirs)" in t, "doins-r", "doins installs directories only with -r")
+    ctx.check("R5", di, M.has(di.node.body, SPLIT + "if self.opts.recursive:\n    self.install_from_dirs($dirs)") and _only_under(di, "self.install_from_dirs", "self.opts.recursive"), "doins-r", "doins installs directories only with -r")
     dh = P.func(MOD, "Dohtml._install_targets")
-    t = A.unparse(dh.node)
-    ctx.check("R5", dh, "is a directory, missing -r option?" in t and "if self._allowed_file(f)" in t, "dohtml-dir-needs-r", "dohtml: directories need -r; only allowed files are installed")
+    ctx.check("R5", dh, M.has(dh.node.body, SPLIT + "$dirs = list($dirs)\nif $dirs:\n    if self.opts.recursive:\n        self.install_from_dirs($_)\n    else:\n        raise IpcCommandError($_)\nself.install((($f, os.path.basename($f)) for $f in $files if self._allowed_file($f)))")
+              and _only_under(dh, "self.install_from_dirs", "self.opts.recursive") and len([c for c in A.calls(dh.node) if A.unparse(c.func) == "self.install"]) == 1,
+              "dohtml-dir-needs-r", "dohtml: directories need -r; only allowed files are installed")
     dm = P.func(MOD, "Doman._install_targets")
-    t = A.unparse(dm.node)
-    ctx.check("R5", dm, "raise IpcCommandError(f'invalid man page: {x}')" in t and "self.valid_mandir_re.match(os.path.basename(mandir))" in t, "doman-needs-section", "doman rejects pages without a valid section")
+    sect = M.one(dm.node.body, "for $x in targets:\n    if self.valid_mandir_re.match(os.path.basename($mandir)):\n        self.install([($x, pjoin($mandir, $_))])\n    else:\n        raise IpcCommandError($_)")
+    sect_if = next((st for st in sect.node.body if isinstance(st, ast.If) and M.has(st.test, "self.valid_mandir_re.match(os.path.basename($mandir))", sect.env)), None) if sect else None
+    installs = [c for c in A.calls(dm.node) if A.unparse(c.func) in ("self.install", "self.install_dirs")]
+    ctx.check("R5", dm, sect_if is not None and installs and all(any(A.contains_node(st, c) for st in sect_if.body) for c in installs), "doman-needs-section", "doman rejects pages without a valid section")
     dmi = P.func(MOD, "Doman.__init__")
-    ctx.check("R5", dmi, "self.eapi.options.doman_language_detect" in A.unparse(dmi.node) and "self.eapi.options.doman_language_override" in A.unparse(dmi.node), "doman-lang-options", "language handling is gated by the EAPI options")
+    ctx.check("R5", dmi, M.has(dmi.node, "self.eapi.options.doman_language_detect") and M.has(dmi.node, "self.eapi.options.doman_language_override"), "doman-lang-options", "language handling is gated by the EAPI options")
     vm = P.cls(MOD, "Doman").assigns.get("valid_mandir_re")
     ctx.check("R5", dm, vm is not None and A.try_literal(vm.args[0]) == "man[0-9n](f|p|pm)?$", "doman-section-regex", "sections: man[0-9n] with optional f/p/pm")
     ctx.floor("R5", 10)
+
+
+def _conjuncts(test):
+    return list(test.values) if isinstance(test, ast.BoolOp) and isinstance(test.op, ast.And) else [test]
+
+
+def _under_if(call, cond):
+    """the call sits in the TRUE branch of an `if` one of whose conjuncts is `cond`"""
+    child = call
+    for p in A.parents(call):
+        if isinstance(p, ast.If) and any(child is st for st in p.body) and any(M.pat(cond).matches(c) for c in _conjuncts(p.test)):
+            return True
+        if isinstance(p, (ast.FunctionDef, ast.AsyncFunctionDef)):
+            return False
+        child = p
+    return False
+
+
+def _only_under(fn, callee, cond):
+    """every call of `callee` in fn sits in the true branch of `if <cond>` (whole test, or all of cond's conjuncts among the test's)"""
+    want = [A.unparse(c) for c in _conjuncts(ast.parse(cond, mode="eval").body)]
+    cs = [c for c in A.calls(fn.node) if A.unparse(c.func) == callee]
+
+    def ok(call):
+        child = call
+        for p in A.parents(call):
+            if isinstance(p, ast.If) and any(child is st for st in p.body) and set(want) <= {A.unparse(c) for c in _conjuncts(p.test)}:
+                return True
+            if p is fn.node:
+                return False
+            child = p
+        return False
+    return bool(cs) and all(ok(c) for c in cs)
 
 
 F = "src/pkgcore/ebuild/ebd_ipc.py"
